@@ -95,3 +95,17 @@ Proof. exact tswizzle_transpose_involution. Qed.
 Theorem C03_rt_wft_ext : forall n t1 t2, wft n t1 -> wft n t2 ->
   (forall zs, length zs = n -> tlookup (map VInt zs) t1 = tlookup (map VInt zs) t2) -> t1 = t2.
 Proof. exact wft_ext. Qed.
+
+(* (d)(e)(f) at any depth: the interpreter applies the operations to every fiber at depth d (Rt.tmap_depth) *)
+Theorem C03_rt_split_equal_merge1_depth : forall d n t, 0 < n -> at_depth d (fiber_ok int_sorted) t ->
+  exists t', tmap_depth d (split_equal n) t = Some t' /\ tmap_depth d merge1 t' = Some t.
+Proof. exact split_equal_merge1_depth. Qed.
+
+Theorem C03_rt_split_nonuniform_merge1_depth : forall d zs t, StronglySorted Z.lt zs ->
+  at_depth d (fiber_ok (fun l => int_sorted l /\ match zs with b0 :: _ => forall ct, In ct l -> b0 <= kz ct | [] => l = [] end)) t ->
+  exists t', tmap_depth d (split_nonuniform (map VInt zs)) t = Some t' /\ tmap_depth d merge1 t' = Some t.
+Proof. exact split_nonuniform_merge1_depth. Qed.
+
+Theorem C03_rt_flatten1_unflatten1_depth : forall d t, at_depth d (fiber_ok wf2) t ->
+  exists t', tmap_depth d flatten1 t = Some t' /\ tmap_depth d unflatten1 t' = Some t.
+Proof. exact flatten1_unflatten1_depth. Qed.
